@@ -26,3 +26,12 @@ ENTRY = {
         "signature malleability (s -> n-s) is outside the property: the signature bytes are not a signed field",
     ],
 }
+
+# last clause ("the value delivered on decision is exactly the proposed data whose hash was agreed"): the Decide callback
+# of newDefinition is part of the wrapper model (Props/C03Wrap.decided_value_is_hashed_value, stream conswrap)
+from vlib import snippet_C03wrap as _w
+ENTRY["streams"].append(dict(_w.STREAM, seeds_quick=1))
+ENTRY.setdefault("lean_props_extra", []).append(_w.EXTRA_LEAN)
+ENTRY["monitor_sigs"] = list(ENTRY.get("monitor_sigs", ["qbftwire:"])) + ["conswrap:delivered_value_hash_mismatch", "conswrap:delivered_wrong_duty", "conswrap:decide_delivered_twice"]
+ENTRY["trusted_base"] = ENTRY["trusted_base"] + _w.TRUSTED_BASE
+ENTRY["assumptions"] = ENTRY["assumptions"] + _w.ASSUMPTIONS
